@@ -249,6 +249,19 @@ def collectStep (fs : FS) (d : List (String × Bytes)) (f : String) : List (Stri
 def collect (fs : FS) (req : List String) : List (String × Bytes) :=
   req.foldl (collectStep fs) []
 
+def splitSlash : List Char → List Char → List (List Char)
+  | [], cur => [cur.reverse]
+  | c :: cs, cur => if c = '/' then cur.reverse :: splitSlash cs [] else splitSlash cs (c :: cur)
+
+/-- `str(Path(p))`: empty and `.` segments dropped (`./x`, `a//b`, `a/./b`, `a/`); `..` is kept -/
+def normPath (p : String) : String :=
+  let segs := (splitSlash p.toList []).filter fun s => !(s == []) && !(s == ['.'])
+  let body := String.ofList (List.intercalate ['/'] segs)
+  if p.toList.head? == some '/' then "/" ++ body else if body == "" then "." else body
+
+/-- the requested files as the runner names them: relative paths (sub-directories allowed) in normal form -/
+def requested (inp : JobInput) : List String := (inp.returnFiles.getD []).map normPath
+
 def exitcodeOf (v : Variant) (failed : Option Int) (complete : Bool) : Int :=
   match v with
   | .repaired => match failed with
@@ -274,7 +287,7 @@ def runJob (v : Variant) (hash : JobInput → String) (baseEnv : Env) (scratch :
     match inp.returnFiles, v with
     | none, .asShipped => { ran := ran, output := none, exit := 1, scratchAfter := after }   -- `map(Path, None)` raises
     | rf, _ =>
-      let req := rf.getD []
+      let req := (rf.getD []).map normPath
       let complete := req.all (fun f => dhas fs f)
       let failed := failedCode ran
       { ran := ran
@@ -286,6 +299,21 @@ def runJob (v : Variant) (hash : JobInput → String) (baseEnv : Env) (scratch :
             inputHash := hash inp }
         exit := if failed.isNone && complete then 0 else 1
         scratchAfter := after }
+
+/-! ## which program a command starts
+`subprocess.run(argv, env=environ)`: a program given with a `/` is taken as it is (relative to the private directory);
+a bare name is searched along the `PATH` of the environment the COMMAND gets — the runner's environment overridden by
+the job's `envars` — an empty entry meaning the current directory. -/
+
+def pathDirs (env : Env) : List String :=
+  match dget env "PATH" with
+  | some p => p.splitOn ":"
+  | none => []
+
+/-- the file that is started for `prog`, given which candidate files exist and are executable -/
+def resolveProgram (env : Env) (has : String → Bool) (prog : String) : Option String :=
+  if prog.toList.contains '/' then (if has prog then some prog else none)
+  else ((pathDirs env).map fun d => if d == "" then prog else d ++ "/" ++ prog).find? has
 
 /-! ## where the JobOutput goes
 `_molli_run <input> -o <outdir> -s <scratch>`: each path argument may be absolute or relative to the directory the
